@@ -329,6 +329,8 @@ def find_reasonable_step_size(
     integrator, parameters, hamiltonian, mass_matrix, inverse_mass_matrix
 ):
     direction_threshold = math.log(0.8)
+    # the trial trajectories must not move the parameters (they may come from a checkpoint)
+    saved_tensors = [parameter.tensor.detach().clone() for parameter in parameters]
     r = hamiltonian.sample_momentum(mass_matrix)
     ham = hamiltonian(momentum=r, inverse_mass_matrix=inverse_mass_matrix)
 
@@ -355,6 +357,8 @@ def find_reasonable_step_size(
             break
         else:
             integrator.step_size = integrator.step_size * (2.0**direction)
+    for parameter, saved_tensor in zip(parameters, saved_tensors):
+        parameter.tensor = saved_tensor
 
 
 class WarmupAdaptation(Adaptor):
